@@ -59,7 +59,37 @@ static int v_snprintf(char *buf, size_t len, const char *fmt, const char *a, con
 #define getpwnam v_getpwnam
 #define getpwuid v_getpwuid
 #define geteuid v_geteuid
+/* release accounting of the library's own allocations during the call under test (C07) */
+static int lib_live, lib_count_on;
+static void *c_malloc(size_t n)
+{
+	void *p = malloc(n);
+
+	if (lib_count_on && p)
+		lib_live++;
+	return p;
+}
+static char *c_strdup(const char *s)
+{
+	char *p = strdup(s);
+
+	if (lib_count_on && p)
+		lib_live++;
+	return p;
+}
+static void c_free(void *p)
+{
+	if (lib_count_on && p)
+		lib_live--;
+	free(p);
+}
+#define malloc c_malloc
+#define strdup c_strdup
+#define free c_free
 #include "confuse.c"
+#undef malloc
+#undef strdup
+#undef free
 #undef stat
 #include "libc_models.h"
 #include "build.h"
@@ -175,7 +205,10 @@ int main(void)
 	V_ASSUME(vin_file[0] != '/' && vin_file[1] != '/'); /* a plain relative name */
 #endif
 #endif
+	lib_count_on = 1;
 	r = cfg_searchpath(root.path, vin_file);
+	lib_count_on = 0;
+	V_ASSERT(lib_live == (r != NULL ? 1 : 0), "[C07] a look-up keeps nothing but the string it returns: every rejected candidate name (missing, directory) is released");
 #ifdef ABSOLUTE
 	if (ans[NDIRS] == ANS_REG) {
 		V_ASSERT(r != NULL && strcmp(r, vin_file) == 0 && r != vin_file, "[C17] an absolute name that is a regular file resolves to a fresh copy of itself");
